@@ -29,6 +29,9 @@ the failure persists) and classified into exactly one signature:
     C04:stray-quoted-sample-name             F32 (converse only): `{"\\"a\\""} 1` without metadata — the family is named `a`, its sample `"a"`;
                                              re-exposed, the sample opens a second family `a` ("Clashing name").  Not in the corpus
                                              until the signature is listed: add the document '{"\\"a\\""} 1\\n# EOF\\n' to CORPUS_DOCS then
+    C04:document-sample-dropped              document direction, FIRST parse: the parser kept fewer (or more) samples of a family than the
+                                             document has distinct (series, instant) pairs — judged against the generator's own description
+                                             of the document (omgen describe()) or the expectation stored with a corpus document
     C04:exemplar-rendering                   a '"' in an exemplar label and the exposition line is NOT what the format asks for
     C04:label-name-unvalidated:<source>      F20 class (C03): a label name the library itself rejects reached the exposition
     C04:parser-only-rule:<class>             content that breaks no C15 rule but that the library's own parser rejects (or changes):
@@ -970,6 +973,17 @@ def corpus_specs():
         # repeated series at a later timestamp, nanosecond difference only
         out.append(('corpus:repeat', R([raw('t', 'gauge', [smp('t', ts={'s': [1, 1]}), smp('t', ts={'s': [1, 2]}), smp('t', ts={'s': [1, 3]})])])))
         out.append(('corpus:repeat', R([raw('t', 'gauge', [smp('t', ts={'i': 1}), smp('t', ts={'f': lib.bits_of(1.000000001)})])])))
+        # several points of one series at a realistic epoch: nanoseconds differing by 1, by 1000, seconds differing (a double cannot
+        # tell the first ones apart at 1.7e9 s — the parser's duplicate filter must compare (sec, nsec))
+        E = 1700000000
+        out.append(('corpus:repeat-epoch', R([raw('t', 'gauge', [smp('t', [('a', 'x')], value=fb(float(i)), ts={'s': [E, n]})
+                                                                 for i, n in enumerate([1, 2, 3])])])))
+        out.append(('corpus:repeat-epoch', R([raw('t', 'gauge', [smp('t', [('a', 'x')], value=fb(float(i)), ts={'s': [E, n]})
+                                                                 for i, n in enumerate([0, 1000, 2000, 999999999])])])))
+        out.append(('corpus:repeat-epoch', R([raw('t', 'counter', [smp('t_total', [('a', 'x')], value=fb(float(i)), ts={'s': [E + d, n]})
+                                                                   for i, (d, n) in enumerate([(0, 5), (0, 6), (1, 5), (1, 6), (2, 0)])])])))
+        out.append(('corpus:repeat-epoch', R([raw('t', 'gauge', [smp('t', ts={'s': [E, 100]}), smp('t', ts={'s': [E, 101]}),
+                                                                 smp('t', [('b', 'y')], ts={'s': [E, 101]}), smp('t', [('b', 'y')], ts={'s': [E, 102]})])])))
         # _created, units (legacy and UTF-8 names), empty family, HELP shapes, special values
         out.append(('corpus:created', R([C('c', [{'v': ONE}], unit='seconds')])))
         for doc in ['a\\nb', '', '\\', 'x\\', '"q"', ' lead', 'trail ', 'a\nb', '\\\\n', 'a  b', '\\"', 'n\\n\n', '# EOF', '\xa0x']:
@@ -1081,6 +1095,36 @@ def mixed_spelling_duplicates(fams):
     return False
 
 
+def text_ts_ns(t):
+    """nanoseconds a timestamp TEXT of a document denotes (digits beyond the ninth dropped); independent of the library"""
+    if t is None:
+        return None
+    try:
+        return int(Decimal(t).scaleb(9))
+    except Exception:  # noqa
+        return t
+
+
+def expected_counts(description):
+    """from the generator's own description of a document (omgen.Doc.describe()): how many samples each family must keep — a
+    sample line is dropped by the parser only when it repeats a series (name and label dict) at an unchanged instant"""
+    out = []
+    for f in description:
+        seen = set()
+        for smp in f['samples']:
+            seen.add((smp['name'], tuple(sorted(smp['labels'].items())), text_ts_ns(smp['timestamp'])))
+        out.append((f['name'], len(seen)))
+    return out
+
+
+def first_parse_check(fams, expected):
+    """-> (cls, what) | None: the first parse of an accepted document keeps every sample the document has"""
+    got = [(m.name, len(m.samples)) for m in fams]
+    if [n for _, n in got] != [n for _, n in expected]:
+        return ('first-parse-sample-count', 'the document has %s distinct (series, instant) samples per family, the parser kept %s' % (expected, got))
+    return None
+
+
 def minimise_doc(doc, legacy, cls, budget_s=2.0):
     """drop lines, then simplify tokens, while the converse still fails the same way"""
     t0 = time.time()
@@ -1133,6 +1177,10 @@ CORPUS_DOCS = [
     '# TYPE a counter\na_total 1 # {} 1\n# EOF\n',
     '# TYPE a counter\na_total{b="c"} 1 17 # {"a b"="x"} 1 -2\n# EOF\n',
     'a 1 1.5\na 2 1.5e0\na 3 2\n# EOF\n',
+    # one series at a realistic epoch, nanoseconds differing by 1 / by 1000, seconds differing: every point is kept
+    'a{x="y"} 1 1700000000.000000001\na{x="y"} 2 1700000000.000000002\na{x="y"} 3 1700000000.000000003\n# EOF\n',
+    '# TYPE a gauge\na 1 1700000000.000001000\na 2 1700000000.000002000\na 3 1700000001.000001000\na 4 1700000002\n# EOF\n',
+    '# TYPE a counter\na_total 1 1700000000.000000005\na_total 2 1700000000.000000006\na_created 5 1700000000.000000006\n# EOF\n',
     'a 1 1\na 1 1\na 1 1.0\n# EOF\n',
     '# HELP a \\"q\\" "r" \\\\n \\n\n# TYPE a gauge\n# UNIT a \n# EOF\n',
     '# TYPE "a b_seconds" gauge\n# UNIT "a b_seconds" seconds\n{"a b_seconds", x="y"} 1\n# EOF\n',
@@ -1143,6 +1191,14 @@ CORPUS_DOCS = [
     '# TYPE a stateset\na{a="on"} 1\na{a="off"} 0\n# EOF\n',
     '# TYPE a summary\na{quantile="0.5"} 1\na_count 2\na_sum 3\n# EOF',
 ]
+
+
+CORPUS_EXPECTED = {     # (family name, samples kept) for the corpus documents whose point is that nothing is dropped
+    'a{x="y"} 1 1700000000.000000001\na{x="y"} 2 1700000000.000000002\na{x="y"} 3 1700000000.000000003\n# EOF\n': [('a', 3)],
+    '# TYPE a gauge\na 1 1700000000.000001000\na 2 1700000000.000002000\na 3 1700000001.000001000\na 4 1700000002\n# EOF\n': [('a', 4)],
+    '# TYPE a counter\na_total 1 1700000000.000000005\na_total 2 1700000000.000000006\na_created 5 1700000000.000000006\n# EOF\n': [('a', 3)],
+    'a 1 1\na 1 1\na 1 1.0\n# EOF\n': [('a', 1)],
+}
 
 
 # ------------------------------------------------------------------------------------------------- the run
@@ -1246,7 +1302,9 @@ class Runner:
     def record_fail(self, spec, res):
         cls = res['fail'][0]
         self.ctx.count('fail-class:' + cls)
-        capkey = cls + '|' + (res.get('msg') or '').split(':')[0][:60]        # a cap per failure class and parser message
+        # a cap per failure class, parser message and parser-only classes present (so that e.g. the known "repeated series at one
+        # timestamp is dropped" cannot use up the budget of every other sample-count failure)
+        capkey = cls + '|' + (res.get('msg') or '').split(':')[0][:60] + '|' + ','.join(sorted(set(res.get('parser_only') or [])))
         if sum(1 for r in self.records if r[3] == capkey) >= 4:
             return
         small = minimise(spec, res['failkey'])
@@ -1257,7 +1315,7 @@ class Runner:
         self.sig_count[sig] = self.sig_count.get(sig, 0) + 1
         self.records.append((sig, '%s — %s; exposition %r' % (r2['fail'][0], r2['fail'][1][:400], (r2.get('text') or '')[:300]), small, capkey))
 
-    def run_doc(self, origin, doc, legacy):
+    def run_doc(self, origin, doc, legacy, expected=None):
         ctx = self.ctx
         try:
             doc.encode('utf-8')
@@ -1279,6 +1337,16 @@ class Runner:
             return res
         ctx.count('doc:accepted')
         ctx.case(('doc', hash(doc)), {'document': doc[:300], 'reexposition': (res.get('text2') or '')[:300]})
+        if expected is not None and res.get('fail') is None:
+            # the document direction has an independent expectation too: the generator's own description of the document
+            fp = first_parse_check(res['fams'], expected)
+            if fp is not None:
+                ctx.count('fail-class:' + fp[0])
+                if sum(1 for r in self.records if r[3] == fp[0]) < 4:
+                    sig = 'C04:document-sample-dropped'
+                    self.sig_count[sig] = self.sig_count.get(sig, 0) + 1
+                    self.records.append((sig, '%s — %s; document %r' % (fp[0], fp[1][:300], doc[:300]),
+                                         {'kind': 'doc', 'doc': doc, 'legacy': bool(legacy), 'expected': expected}, fp[0]))
         if res.get('text2') and res.get('o2'):
             o2 = res['o2']
             creal2 = c14om.obs(('ok', c14om.enc_families(o2[1])) if o2[0] == 'ok' else o2)
@@ -1404,12 +1472,14 @@ def run(ctx):
         phases['random'] = round(time.time() - t1, 1)
         t1 = time.time()
         for d in CORPUS_DOCS:
-            R.run_doc('corpus', d, False)
-            R.run_doc('corpus', d, True)
+            exp = CORPUS_EXPECTED.get(d)
+            R.run_doc('corpus', d, False, exp)
+            R.run_doc('corpus', d, True, exp)
         for i in range(n_docs):
             legacy = rng.random() < 0.25
-            doc = omgen.gen_doc(rng, nfam=rng.choice([1, 1, 2, 3])).render()
-            R.run_doc('generated', doc, legacy)
+            gd = omgen.gen_doc(rng, nfam=rng.choice([1, 1, 2, 3]))
+            doc = gd.render()
+            R.run_doc('generated', doc, legacy, expected_counts(gd.describe()))
             for _ in range(3):
                 R.run_doc('mutated', mutate_doc(rng, doc), legacy)
             if i % 50 == 49:
@@ -1460,7 +1530,7 @@ def replay(ctx, case):
         if c.get('kind') == 'doc':
             doc = c['doc']
             print('REPLAY document (legacy=%s) %r' % (c.get('legacy'), doc[:600]))
-            res = R.run_doc('replay', doc, bool(c.get('legacy')))
+            res = R.run_doc('replay', doc, bool(c.get('legacy')), [tuple(x) for x in c['expected']] if c.get('expected') else None)
             if res is not None:
                 print('REPLAY first parse: %s' % (c14om.obs(('ok', c14om.enc_families(res['o1'][1])) if res['o1'][0] == 'ok' else res['o1'])[:200]))
                 print('REPLAY re-exposition %r' % (res.get('text2'),))
